@@ -2461,11 +2461,9 @@ impl<'a> Socket<'a> {
     /// <https://elixir.bootlin.com/linux/v6.9.9/source/net/ipv4/tcp.c#L1472>.
     fn window_to_update(&self) -> bool {
         match self.state {
-            State::SynSent
-            | State::SynReceived
-            | State::Established
-            | State::FinWait1
-            | State::FinWait2 => {
+            // A SYN cannot announce more than an unscaled 16-bit window, so there is
+            // nothing to update before the connection is synchronized.
+            State::Established | State::FinWait1 | State::FinWait2 => {
                 let new_win = self.scaled_window();
                 if let Some(last_win) = self.last_scaled_window() {
                     new_win > 0 && new_win / 2 >= last_win
@@ -2834,7 +2832,12 @@ impl<'a> Socket<'a> {
         // acknowledgement number and window; remember what we advertised, since incoming
         // segments are trimmed to that window.
         self.remote_last_ack = repr.ack_number;
-        self.remote_last_win = repr.window_len;
+        // The window field of a SYN is not scaled, but `remote_last_win` always is.
+        self.remote_last_win = if repr.control == TcpControl::Syn {
+            repr.window_len >> self.remote_win_shift
+        } else {
+            repr.window_len
+        };
 
         // Leave the rest of the state intact if sending a zero-window probe.
         if is_zero_window_probe {
